@@ -568,6 +568,10 @@ func boundsRuleFor(c *Ctx, r *Report, rule string, entryNames []string, strs boo
 			if counter[base] > 1 {
 				construct = fmt.Sprintf("%s#%d", base, counter[base])
 			}
+			if why := packerResultOnItsBuffer(s); why != "" && !s.Proven {
+				r.note("%s: %s at %s is not decided: %s", rule, construct, c.pos(s.Instr.Pos()), why)
+				continue
+			}
 			if why, ex := exempt[construct]; ex && !s.Proven {
 				// one named construct, with the reason it is outside what the prover derives; not part of the claim
 				r.note("%s: %s at %s is not decided: %s", rule, construct, c.pos(s.Instr.Pos()), why)
@@ -674,4 +678,28 @@ func c20DedupOnce(c *Ctx, r *Report, rule string) {
 	if n == 0 {
 		r.undecided(rule, "Dedup", c.pos(fn.Pos()), "no store of a record into the result slice found")
 	}
+}
+
+// packerResultOnItsBuffer: the one shape of access the bounds rules leave undecided by name rather than by text:
+// EDNS0_REPORTING.pack cuts its scratch buffer at the offset PackDomainName returned for that very buffer
+// (b[:off1] after off1, err := PackDomainName(name, b, 0, ...)). That needs "the name packer returns an offset
+// within the buffer it was given", a postcondition the prover does not derive (packDomainName returns the offset
+// it was handed for the empty name). Recognised by what it is, not by how the buffer was made, so that resizing
+// the buffer is not reported.
+func packerResultOnItsBuffer(s *boundSite) string {
+	if s.Kind != "slice-high" || s.Upper == nil || s.UpperK != 0 || fnDisplay(s.Fn) != "EDNS0_REPORTING.pack" {
+		return ""
+	}
+	ex, ok := s.Upper.(*ssa.Extract)
+	if !ok || ex.Index != 0 {
+		return ""
+	}
+	call, ok := ex.Tuple.(*ssa.Call)
+	if !ok || calleeNameSSA(&call.Call) != "PackDomainName" || len(call.Call.Args) < 3 || call.Call.Args[1] != s.Buf {
+		return ""
+	}
+	if k, isK := constIntOf(call.Call.Args[2]); !isK || k != 0 {
+		return ""
+	}
+	return "needs 'PackDomainName returns an offset within the buffer it was given', a postcondition of the name packer, which is not decided"
 }
